@@ -573,7 +573,11 @@ func (env *SpecEnv) binary(e *SExpr) SVal {
 	}
 	ea, eb := env.eval(e.Args[0]), env.eval(e.Args[1])
 	if ea.NoCall || eb.NoCall {
-		return SVal{T: False, Typ: tb}
+		switch e.Name {
+		case "==", "!=", "<", "<=", ">", ">=":
+			return SVal{T: False, Typ: tb}
+		}
+		return SVal{NoCall: true}
 	}
 	a, b := env.unify(ea, eb)
 	if a.T == nil || b.T == nil {
